@@ -85,7 +85,7 @@ func init() {
 					run.Dir = tree
 					b, err := run.CombinedOutput()
 					c.Count("generations")
-					c.Count("evaluations_override")
+					c.Count("evaluations_extra")
 					c.Distinct("nontrivial", fmt.Sprintf("gen%d", g))
 					if err != nil {
 						c.Violation("self-config-rejected", fmt.Sprintf("generation %d: the tool rejects its own configuration: %v\n%s", g, err, b), nil, nil)
@@ -106,7 +106,7 @@ func init() {
 						os.Chdir(wd)
 						ib, _ := os.ReadFile(ip)
 						c.Count("generations")
-						c.Count("evaluations_override")
+						c.Count("evaluations_extra")
 						c.Distinct("nontrivial", "inproc")
 						if !r.OK() || stripVersionLine(string(ib)) != stripVersionLine(gen) {
 							c.Violation("inprocess-differs", "in-process command and binary disagree on the self-configuration\n"+r.Out, nil, nil)
@@ -136,7 +136,7 @@ func init() {
 						run.Dir = st
 						b, err := run.CombinedOutput()
 						c.Count("generations")
-						c.Count("evaluations_override")
+						c.Count("evaluations_extra")
 						c.Distinct("nontrivial", "stub")
 						if err != nil {
 							c.Violation("self-stub-rejected", fmt.Sprintf("--stub on the self-configuration fails: %v\n%s", err, b), nil, nil)
